@@ -6,6 +6,7 @@ import preview
 from preview import Plan
 from vlib import Infra, write_ndjson
 
+# (StaleAfterReload of FzfPreview is not offered by Trace_Preview: the code cannot do it; a session that shows it is rejected)
 KIND_OF_DEV = {"LostCancel": "lost-cancel", "LostKillAtExit": "survives-exit", "ExitBeforeKill": "survives-exit",
                "StaleAfterShow": "stale-after-show", "StaleRows": "stale-rows-after-loading", "LostOffsetReset": "lost-offset-reset"}
 FINDING_OF_KIND = {"lost-cancel": "F6", "survives-exit": "F6", "stale-after-show": "F18", "stale-rows-after-loading": "F24",
@@ -13,7 +14,7 @@ FINDING_OF_KIND = {"lost-cancel": "F6", "survives-exit": "F6", "stale-after-show
 
 
 # ------------------------------------------------------------------ stimuli
-def random_steps(rng, n, nitems):
+def random_steps(rng, n, nitems, ngens=0):
     moves = ["up", "up", "up", "down", "up+up", "up+up+up", "page-up", "first", "last", "pos(%d)" % rng.randint(1, nitems), "down+down"]
     edits = ["put(a)", "put(b)", "put(1)", "put(2)", "backward-delete-char", "clear-query", "change-query(b1)", "change-query(a)",
              "change-query(ab2)", "change-query(zz)", "backward-delete-char+put(1)"]
@@ -24,19 +25,30 @@ def random_steps(rng, n, nitems):
     scrolls = ["preview-down", "preview-down", "preview-up", "preview-page-down", "preview-half-page-down", "preview-bottom", "preview-top",
                "preview-down+preview-down", "preview-down+preview-up", "preview-page-down+preview-page-up", "preview-half-page-up",
                "toggle-preview-wrap", "toggle-preview-wrap+toggle-preview-wrap", "preview-down+up", "up+preview-down", "preview-bottom+preview-top"]
+    # the input is replaced (reload / reload-sync; instant, after a pause, in two parts): the line under the cursor becomes another
+    # line although its index may stay what it was; with and without a selection to clear, alone and chained with a movement
+    reloads = ["@R%d", "@S%d", "@R%d", "@S%d", "@Rs%d", "@Ss%d", "@Rp%d", "@Sp%d", "toggle+@R%d", "toggle+up+@S%d", "@R%d+up", "up+@S%d",
+               "toggle+@Rs%d", "@S%d+toggle"]
     steps = []
     for _ in range(n):
         r = rng.random()
-        if r < 0.40:
+        reloaded = False
+        if r < 0.37:
             body = rng.choice(moves)
-        elif r < 0.54:
+        elif r < 0.50:
             body = rng.choice(edits)
-        elif r < 0.68:
+        elif r < 0.63:
             body = rng.choice(sels)
-        elif r < 0.80:
+        elif r < 0.74:
             body = rng.choice(pvs)
-        elif r < 0.94:
+        elif r < 0.87:
             body = rng.choice(scrolls)
+        elif r < 0.94:
+            if ngens:
+                body = rng.choice(reloads) % rng.randint(0, ngens)
+                reloaded = True
+            else:
+                body = rng.choice(moves)
         else:
             # another template (with / without {q}, {+}), then edits that keep the cursor on the same line: only the
             # version counter can tell the render loop that the preview must be refreshed
@@ -47,7 +59,9 @@ def random_steps(rng, n, nitems):
                                "change-query(zz)", "toggle+put(a)"])
         steps.append({"post": body})
         r = rng.random()
-        if r < 0.45:
+        if reloaded and r < 0.5:
+            steps.append({"until": "list.reload", "soft": True, "rel": "post"})      # (pseudo event: the terminal got the list of another input generation)
+        elif r < 0.45:
             pass                                         # back to back
         elif r < 0.75:
             steps.append({"sleep": rng.choice([0.001, 0.003, 0.01, 0.03, 0.08, 0.12, 0.22, 0.3, 0.45, 0.52, 0.6])})
@@ -77,7 +91,9 @@ def random_plan(rng, sid, geoms):
                         ["late", "instant", "execend", "slow"], ["instant", "incr", "slow"], ["pipe", "execend", "endless", "instant"]])
     nitems = rng.choice([40, 400, 3000])
     leave = rng.choice(["abort", "abort", "accept", "sigterm"])
-    steps = random_steps(rng, rng.randint(5, 22), nitems)
+    # input generations for reload: as many lines as before / fewer (the cursor may be pulled up) / more
+    gens = [rng.choice([nitems, nitems, max(3, nitems // 3), 3, nitems + 13]) for _ in range(rng.choice([0, 0, 1, 2, 3]))]
+    steps = random_steps(rng, rng.randint(5, 22), nitems, len(gens))
     observe = rng.random() < 0.85
     if not observe:
         # leave in the middle of things: right after a movement / as soon as the watcher got the cancel / at once
@@ -86,7 +102,7 @@ def random_plan(rng, sid, geoms):
     layout = rng.randrange(len(preview.LAYOUTS))
     return Plan(sid, rng.choice(sorted(preview.TEMPLATES)), kinds, nitems, steps, observe=observe, leave=leave, label="random",
                 lead=rng.choice([0, 0, 0, 0.35]), talls=talls_for(rng, geoms[layout][3]), layout=layout, wrap=rng.random() < 0.3,
-                suffix=rng.choice(["", "", "-" + "w" * rng.randint(8, 40)]))
+                suffix=rng.choice(["", "", "-" + "w" * rng.randint(8, 40)]), gens=gens)
 
 
 def directed_plans(sid0, reps, geoms, rng):
@@ -168,9 +184,62 @@ def directed_plans(sid0, reps, geoms, rng):
             plans.append(Plan(sid, "PA", ["instant"], 40, [first, {"post": "put(a)"}, {"post": "change-preview:PD"}, {"until": "pv.display", "soft": True},
                                                            {"post": "put(b)"}, {"post": "change-preview:PC"}, {"post": "backward-delete-char"}],
                               leave="accept", label="query-after-change-preview", talls=[3, geoms[0][3] + 1])); sid += 1
+        plans += reload_plans(sid, r, geoms)
+        sid += 20
         # no deviation expected: leave while a never-ending command runs and its watcher is in the select
         plans.append(Plan(sid, "PC", ["ticking"], 40, [{"until": "pv.display", "n0": 0}], observe=True, leave=["sigterm", "accept", "abort"][r % 3],
                           label="exit-while-running", talls=[2])); sid += 1
+    return plans
+
+
+def reload_plans(sid0, r, geoms):
+    """The list is a function of the input generation: reload(CMD) / reload-sync(CMD) with commands that print OTHER lines at
+    the same positions - as many as before, fewer, more - while the selection is empty / not empty, with and without a query,
+    while the preview of the old line is on display / still running.  The cursor keeps its position, the item under it keeps
+    its INDEX: only the content tells that the preview on display is not the one for the line under the cursor."""
+    nl = len(preview.LAYOUTS)
+    first = {"until": "pv.display", "n0": 0}
+    shown = {"until": "pv.display", "soft": True}
+    switched = {"until": "list.reload", "soft": True, "rel": "post"}
+    plans = []
+
+    def add(tag, kinds, steps, label, gens, lay, talls=None, **kw):
+        h = geoms[lay % nl][3]
+        plans.append(Plan(sid0 + len(plans), tag, kinds, 40, steps, label=label, gens=gens, layout=lay % nl,
+                          talls=talls or [h + 2, 2, h, 1], **kw))
+    R, S = ("@R1", "@S1") if r % 2 == 0 else ("@S1", "@R1")
+    slowR = ["@Rs1", "@Ss1", "@Rp1", "@Sp1"][r % 4]
+    tags = ["PB", "PD", "PA", "PC"]
+    # as many lines as before, empty selection, no query: cursor on the first line / further up (the seeded case C20-7)
+    add(tags[r % 4], ["instant"], [first, {"post": R}], "reload-same-index", [40], r)
+    add(tags[(r + 1) % 4], ["instant"], [first, {"post": "up+up"}, shown, {"post": S}], "reload-same-index", [40], r + 1)
+    add(tags[(r + 2) % 4], ["instant"], [first, {"post": "up+up+up"}, shown, {"post": slowR}], "reload-same-index-slow-input", [40], r + 2)
+    # the preview of the old line is still running (never-ending / slow) when the list is replaced
+    add(tags[(r + 3) % 4], ["endless"], [first, {"post": "up"}, shown, {"post": R}], "reload-while-preview-runs", [40], r + 3,
+        leave=["abort", "accept", "sigterm"][r % 3])
+    add("PB", ["slow", "instant"], [first, {"post": "up+up"}, {"until": "pv.start", "soft": True}, {"post": S}], "reload-while-preview-runs", [40], r + 4)
+    add("PD", ["late", "instant"], [first, {"post": "up"}, {"until": "pv.start", "soft": True}, {"post": slowR}, {"sleep": 0.2}, {"post": "preview-down"}],
+        "reload-while-preview-runs", [40], r + 5)
+    # a selection to clear (the version is bumped with the selection as well)
+    add("PA", ["instant"], [first, {"post": "toggle+up+toggle+up"}, shown, {"post": R}], "reload-with-selection", [40], r + 6)
+    add("PC", ["instant", "slow"], [first, {"post": "toggle"}, shown, {"post": S}], "reload-with-selection", [40], r + 7)
+    # with a query: the position is kept, the index under the cursor need not be
+    add("PA", ["instant"], [first, {"post": "change-query(b1)"}, shown, {"post": "up"}, shown, {"post": R}], "reload-with-query", [40], r)
+    add("PC", ["instant"], [first, {"post": "put(b)"}, shown, {"post": slowR}, switched, {"post": "backward-delete-char"}], "reload-with-query", [40], r + 1)
+    # fewer lines (the cursor is pulled up / stays), more lines; back to the first input; the same input again
+    add("PB", ["instant"], [first, {"post": "up+up+up+up+up"}, shown, {"post": R}], "reload-fewer", [3], r + 2)
+    add("PD", ["instant"], [first, {"post": "up"}, shown, {"post": S}], "reload-fewer", [3], r + 3)
+    add("PB", ["instant"], [first, {"post": "last"}, shown, {"post": R}], "reload-more", [61], r + 4)
+    add("PD", ["instant"], [first, {"post": "up+up"}, shown, {"post": "@R1"}, switched, shown, {"post": "@S2"}, switched, shown, {"post": "@R0"}],
+        "reload-there-and-back", [40, 40], r + 5)
+    add("PB", ["instant"], [first, {"post": "up"}, shown, {"post": "@S1"}, switched, shown, {"post": "@R1"}], "reload-same-input-again", [40], r + 6)
+    # two reloads back to back (the reader is restarted while it reads); a reload and a movement in one chain
+    add("PA", ["instant"], [first, {"post": "@Rp1"}, {"post": "@R2"}], "reload-twice", [40, 40], r + 7)
+    add("PB", ["instant", "slow"], [first, {"post": "up+" + R + "+up"}], "reload-and-move", [40], r)
+    add("PD", ["instant"], [first, {"post": S}, {"burst": "up", "until": "list.reload", "rel": "post"}], "reload-and-move", [40], r + 1)
+    # the window is hidden while the list is replaced, then shown
+    add("PB", ["instant"], [first, {"post": "toggle-preview"}, {"post": R}, switched, {"sleep": 0.2}, {"post": "toggle-preview"}],
+        "reload-while-hidden", [40], r + 2)
     return plans
 
 
@@ -250,15 +319,21 @@ def judge_sessions(ctx, results, label):
         bad = s_evs[acc - a]
         prev = s_evs[max(0, acc - a - 5):acc - a]
         short = lambda e: {k: v for k, v in e.items() if k not in ("log", "texts", "tmpls")}
-        ctx.violation("session %d (%s, window %s%s, %s lines by item): spec rejects event %d %s (after %s)" % (
+        hint = ""
+        if bad["ev"] == "quiet" and bad.get("curtext") and any(e["ev"] == "reload" for e in s_evs[:acc - a]):
+            # (wording only) the input was replaced during the session and the line under the cursor is named nowhere in the window
+            if bad["visible"] and not any(("|%s|" % bad["curtext"]) in r + "|" or ("|%s,|" % bad["curtext"]) in r for r in bad["rows"]):
+                hint = " [after a reload the line under the cursor is %r (index %d); the preview window does not show its preview]" % (
+                    bad["curtext"], bad["cur"])
+        ctx.violation("session %d (%s, window %s%s, %s lines by item): spec rejects event %d %s (after %s)%s" % (
             sid, plan.label, preview.LAYOUTS[plan.layout], ",wrap" if plan.wrap else "", plan.talls, acc - a,
-            json.dumps(short(bad))[:900], json.dumps([short(e) for e in prev])[:700]),
+            json.dumps(short(bad))[:900], json.dumps([short(e) for e in prev])[:700], hint),
             {"plan": plan.to_json(), "events": s_evs, "rejected_at": acc - a})
         pending = [x for x in pending if x > sid]
     return accepted_clean
 
 
-DEV_CFGS = (("MC_Preview_dev.cfg", "ConvergenceLostCancel"), ("MC_Preview_dev_exit.cfg", "ExitCleanLostKill"),
+DEV_CFGS = (("MC_Preview_dev_reload.cfg", "ConvergenceStaleAfterReload"), ("MC_Preview_dev.cfg", "ConvergenceLostCancel"), ("MC_Preview_dev_exit.cfg", "ExitCleanLostKill"),
             ("MC_Preview_dev_show.cfg", "ConvergenceStaleAfterShow"), ("MC_Preview_dev_rows.cfg", "ConvergenceStaleRows"),
             ("MC_Preview_dev_offset.cfg", "ConvergenceLostOffsetReset"))
 
@@ -272,9 +347,9 @@ def model_checking(ctx):
             ("MC_Preview_quick.cfg", dict(workers=4, timeout=1500)),
             ("MC_Preview_rows_quick.cfg", dict(workers=ctx.pick(6, 4), timeout=1500))]
     if not ctx.quick:
-        jobs += [("MC_Preview.cfg", dict(workers=6, timeout=5400)),            # 3 user actions, one-line outputs, liveness: 5.3 M states
-                 ("MC_Preview_rows.cfg", dict(workers=5, timeout=5400)),       # 3 user actions, rows + scrolling (finite, no {q}): 12.5 M states
-                 ("MC_Preview_show4.cfg", dict(workers=5, timeout=5400)),      # 4 user actions (toggle-preview chains, finding F18): 21 M states
+        jobs += [("MC_Preview.cfg", dict(workers=6, timeout=5400)),            # 3 user actions (incl. reload), one-line outputs, liveness: 8.9 M states
+                 ("MC_Preview_rows.cfg", dict(workers=5, timeout=5400)),       # 3 user actions, rows + scrolling + reload (finite, no {q}): 23.2 M states
+                 ("MC_Preview_show4.cfg", dict(workers=5, timeout=5400)),      # 4 user actions (toggle-preview chains, finding F18; no reload): 21 M states
                  ("MC_Preview_rows_fixed.cfg", dict(workers=2, timeout=5400))] # the repair of F24 at design level: StaleRows impossible
     ex = ThreadPoolExecutor(max_workers=len(jobs) + len(DEV_CFGS))
     mcs = [(cfg, ex.submit(ctx.tlc, "FzfPreview", cfg, **kw)) for cfg, kw in jobs]
@@ -374,13 +449,20 @@ def run(ctx):
                                     "with_wrapped_rows": sum(1 for e in quiets if any(r.startswith("> ") for r in e["rows"]))}
     ctx.cov["scroll_and_wrap_actions"] = sum(1 for e in allev if e["ev"] in ("scroll", "tw"))
     ctx.cov["layouts"] = sorted({results[sid][0].layout for sid in results})
+    ctx.cov["reloads"] = {"generations_taken_over": kinds.get("reload", 0),
+                          "sessions": sum(1 for sid in results if any(e["ev"] == "reload" for e in results[sid][1])),
+                          "quiescent_after_reload": sum(1 for sid in results for i, e in enumerate(results[sid][1])
+                                                        if e["ev"] == "quiet" and any(x["ev"] == "reload" for x in results[sid][1][:i])),
+                          "quiescent_after_reload_with_query": sum(1 for sid in results for i, e in enumerate(results[sid][1])
+                                                                   if e["ev"] == "quiet" and e["q"] and any(x["ev"] == "reload" for x in results[sid][1][:i])),
+                          "reload_requests_not_served": sum(1 for e in allev if e["ev"] == "quiet" and e.get("reload") == "lost")}
     ctx.cov["change_preview_posts"] = sum(1 for sid in results for st in results[sid][0].steps if st.get("post", "").startswith("change-preview:"))
     ctx.cov["exits"] = {}
     for e in allev:
         if e["ev"] == "exit":
             k = e["how"] + ("/survivors" if e["survivors"] else "/clean")
             ctx.cov["exits"][k] = ctx.cov["exits"].get(k, 0) + 1
-    distinct = {json.dumps([e["tag"], e["cur"] >= 0, e["q"] != "", len(e["sel"]), e["visible"], e["state"], len(e["procs"]),
+    distinct = {json.dumps([e["tag"], e["cur"] >= 0, e["q"] != "", len(e["sel"]), e["visible"], e["state"], len(e["procs"]), e["curtext"][:2],
                             sum(1 for r in e["rows"] if r), bool(e["rows"]) and "/" in e["rows"][0][-8:]])
                 for e in allev if e["ev"] == "quiet"}
     distinct |= {json.dumps([results[sid][0].label, results[sid][1][-1]["how"], bool(results[sid][1][-1]["survivors"])]) for sid in results}
@@ -390,11 +472,12 @@ def run(ctx):
                        "index; instant / slow / late / incremental / never-ending incl. command lists and pipelines whose long-running part "
                        "is a child of the shell, by item index); preview window down / up / left / right, with and without border, wrap on / "
                        "off; seeded histories of movements, query edits, toggles, toggle-preview, refresh-preview, change-preview, preview "
-                       "scrolling and toggle-preview-wrap POSTed back to back, after seeded pauses, or as soon as a previewer event (pick / "
+                       "scrolling, toggle-preview-wrap and reload / reload-sync (commands that print other lines at the same positions: as "
+                       "many, fewer, more; instant, after a pause, in two parts) POSTed back to back, after seeded pauses, or as soon as a previewer event (pick / "
                        "start / kill / display / exit) is logged; the pv.* hook trace plus LOG, /proc scan, GET / and EVERY ROW of the captured "
                        "preview window at quiescence and the /proc scan after abort / accept / SIGTERM are validated by Trace_Preview; "
                        "non-trivial = distinct (template, has item, has query, selection size, window visible, previewer state, live "
-                       "commands, rows filled, scroll indicator) quiescence observations + distinct (scenario, way of leaving, survivors) endings")
+                       "commands, input generation of the line under the cursor, rows filled, scroll indicator) quiescence observations + distinct (scenario, way of leaving, survivors) endings")
     for sid in sorted(results)[:3]:
         ctx.sample([{k: v for k, v in e.items() if k not in ("texts", "tmpls", "log")} for e in results[sid][1] if e["ev"] in ("enq", "pick", "quiet", "exit")][:6])
     ctx.assumptions += ["a terminal hang-up (SIGHUP, which fzf does not handle) and SIGKILL of fzf are not ways of leaving the property speaks about",
@@ -404,5 +487,8 @@ def run(ctx):
                         "not specified: C20 is about what the window shows; texts are ASCII without tabs (one cell per character)",
                         "the spinner and the scroll indicator drawn over the right end of the first row are code-derived; the 'Loading ..' "
                         "message is not observed (no quiescent state shows it)",
+                        "reload: the generation on display is read from the hook trace (coord.restart names the command, the first term.list with "
+                        "another major revision is the moment Terminal.UpdateList replaced the list); a reload request the coordinator never "
+                        "served (overwritten in the event box) is recorded as it is, not judged (C08's subject)",
                         "no resize / change-preview-window during a session; --preview-window follow, header lines (~N) and scroll specs (+N) not used"]
     return "model_checking"
